@@ -100,6 +100,14 @@ var (
 	sII_I = Sig{[]Ty{TI, TI}, TI}
 	sII_B = Sig{[]Ty{TI, TI}, TB}
 	sBB_B = Sig{[]Ty{TB, TB}, TB}
+	// Loose typings. With strictly separated kinds (ints for bitwise, bools for logical) the
+	// level pairs equality→bitwise (`$a & $b == $c`) and bitwise→logical (`$t && $a | $b`)
+	// could never be printed without parentheses, so two thirds of the table's lower half
+	// would go unexercised. Both are ordinary expressions of a dynamically typed language
+	// (truthiness of an int, a bool used as a bit operand); the self-differential oracle needs
+	// no reference semantics for them.
+	sLogic = Sig{[]Ty{TB | TI, TB | TI}, TB}
+	sBits  = Sig{[]Ty{TI | TB, TI | TB}, TI}
 )
 
 func bin(name, sym string, lv int, sigs ...Sig) *Op {
@@ -109,7 +117,7 @@ func bin(name, sym string, lv int, sigs ...Sig) *Op {
 var ops = []*Op{
 	bin("pow", "**", lvPow, sII_I),
 	{Name: "neg", Sym: "-", Kind: KPre, Level: lvUn, Sigs: []Sig{{[]Ty{TI}, TI}}},
-	{Name: "not", Sym: "!", Kind: KPre, Level: lvUn, Sigs: []Sig{{[]Ty{TB}, TB}}},
+	{Name: "not", Sym: "!", Kind: KPre, Level: lvUn, Sigs: []Sig{{[]Ty{TB | TI}, TB}}},
 	{Name: "bnot", Sym: "~", Kind: KPre, Level: lvUn, Sigs: []Sig{{[]Ty{TI}, TI}}},
 	{Name: "cast-int", Sym: "(int)", Kind: KPre, Level: lvUn, Sigs: []Sig{{[]Ty{TS | TI | TB}, TI}}, Tags: []string{"cast"}},
 	{Name: "cast-str", Sym: "(string)", Kind: KPre, Level: lvUn, Sigs: []Sig{{[]Ty{TI | TS}, TS}}, Tags: []string{"cast"}},
@@ -130,15 +138,15 @@ var ops = []*Op{
 	bin("ne", "!=", lvEq, sII_B, sBB_B),
 	bin("id", "===", lvEq, sII_B, sBB_B),
 	bin("nid", "!==", lvEq, sII_B, sBB_B),
-	bin("band", "&", lvBand, sII_I),
-	bin("bxor", "^", lvBxor, sII_I),
-	bin("bor", "|", lvBor, sII_I),
-	bin("land", "&&", lvLand, sBB_B),
-	bin("lor", "||", lvLor, sBB_B),
+	bin("band", "&", lvBand, sBits),
+	bin("bxor", "^", lvBxor, sBits),
+	bin("bor", "|", lvBor, sBits),
+	bin("land", "&&", lvLand, sLogic),
+	bin("lor", "||", lvLor, sLogic),
 	bin("coal", "??", lvCoal, Sig{[]Ty{TI, TI}, TI}, Sig{[]Ty{TB, TB}, TB}, Sig{[]Ty{TS, TS}, TS}),
 	bin("concat", ".", lvConcat, Sig{[]Ty{TS | TI, TS | TI}, TS}),
 	{Name: "tern", Sym: "?:", Kind: KTern, Level: lvTern, Sigs: []Sig{
-		{[]Ty{TB, TI, TI}, TI}, {[]Ty{TB, TB, TB}, TB}, {[]Ty{TB, TS, TS}, TS}}},
+		{[]Ty{TB | TI, TI, TI}, TI}, {[]Ty{TB | TI, TB, TB}, TB}, {[]Ty{TB | TI, TS, TS}, TS}}},
 	{Name: "asg", Sym: "=", Kind: KAsg, Level: lvAsg, Sigs: []Sig{{[]Ty{TI}, TI}, {[]Ty{TB}, TB}, {[]Ty{TS}, TS}}},
 	{Name: "addasg", Sym: "+=", Kind: KAsg, Level: lvAsg, Sigs: []Sig{{[]Ty{TI}, TI}}},
 	{Name: "catasg", Sym: ".=", Kind: KAsg, Level: lvAsg, Sigs: []Sig{{[]Ty{TS | TI}, TS}}},
